@@ -3,6 +3,7 @@ import json
 import os
 import re
 import subprocess
+import time
 
 import astgen as A
 import common as C
@@ -16,6 +17,13 @@ RULE = ("(a) seeded random programs with 15% deliberately ill-typed sub-expressi
         "hostile texts (huge numerals, unterminated strings and comments, stray delimiters, odd query shapes); every text is loaded, "
         "executed in both modes on trees with non-ASCII text and syntax errors, and every error is rendered plain and pretty, in a "
         "child process under a watchdog; relation: each step returns Ok or Err; non-trivial = the text differs from every other text")
+
+# texts of known finding F16 (tree-sitter's query compiler does not return / allocates without bound): run as they are, not mutated
+HOSTILE_FIXED = [
+    "((identifier)? @c)+ @_x {\n  let u = @c\n}\n",
+    "((identifier)?)+ @x {\n  let u = @x\n}\n",
+    "(argument_list ((identifier) @arg ? @comma)+) {\n  let u1 = @arg\n  let u2 = @comma\n}\n",
+]
 
 HOSTILE = [
     "(module) @m { let x = 99999999999 }",
@@ -62,6 +70,8 @@ HOSTILE = [
     "(module) @m {\r\n  let x = #\r\n}\r\n",
     "inherit .\r\n(module) @_m { }\r\n",
     "(module) @_m {\r\n  attr (n) a = 1\r\n}\r\n",
+    "(module) @_m { print (format \"é{}\" \"foo\"), (format \"«{}» → {{{}}}\" 1 2), (format \"日{x}\" 1) }",
+    "(module) @_m { node n\n attr (n) a = (format \"中中{}中{{}}\" #null), b = (replace \"ééé\" \"é\" \"中\"), c = (join [\"é\", \"\"] \"ü\") }",
     "global x y z",
     "global x* = \"d\"\n(module) @_m { for y in x { print y } }",
     "inherit",
@@ -170,18 +180,40 @@ def run_fuzz(d, items, per_case_s=5.0):
         C.write_ndjson(cin, remaining)
         if os.path.exists(cout):
             os.remove(cout)
-        timeout = 60 + per_case_s * 0.05 * len(remaining)
+        # the child prints "START <id>" before each text: it is stopped when one text takes longer than `stall_s` (a hang) and it runs
+        # under an address-space limit (runaway allocation ends in an abort of the child, not in the kernel killing something)
+        stall_s = 10.0
         how = "ok"
-        try:
-            with open(os.devnull, "w") as devnull:
-                p = subprocess.run([C.TSGV, "fuzz", C.CORPUS_PY, cin, cout], stdout=subprocess.PIPE, stderr=devnull, text=True, timeout=timeout)
-            stdout = p.stdout or ""
-            C.killed_from_outside(p.returncode)
-            if p.returncode != 0:
-                how = "abort(status %d)" % p.returncode
-        except subprocess.TimeoutExpired as ex:
-            stdout = (ex.stdout.decode("utf-8", "replace") if isinstance(ex.stdout, bytes) else (ex.stdout or ""))
-            how = "hang(> %ds for the batch)" % int(timeout)
+        stdout_lines = []
+        import resource
+        import threading
+
+        def limit():
+            resource.setrlimit(resource.RLIMIT_AS, (4 * 1024 ** 3, 4 * 1024 ** 3))
+        with open(os.devnull, "w") as devnull:
+            proc = subprocess.Popen([C.TSGV, "fuzz", C.CORPUS_PY, cin, cout], stdout=subprocess.PIPE, stderr=devnull, text=True, preexec_fn=limit)
+        last = [time.time()]
+        stalled = [False]
+
+        def watchdog():
+            while proc.poll() is None:
+                if time.time() - last[0] > stall_s:
+                    stalled[0] = True
+                    proc.kill()
+                    return
+                time.sleep(1.0)
+        th = threading.Thread(target=watchdog, daemon=True)
+        th.start()
+        for line in proc.stdout:
+            last[0] = time.time()
+            stdout_lines.append(line.rstrip("\n"))
+        rc = proc.wait()
+        stdout = "\n".join(stdout_lines)
+        if stalled[0]:
+            how = "hang(> %ds on one text)" % int(stall_s)
+        elif rc != 0:
+            C.killed_from_outside(rc)
+            how = "abort(status %d)" % rc
         if os.path.exists(cout):
             for row in C.read_ndjson(cout):
                 results[row["id"]] = row["r"]
@@ -213,6 +245,13 @@ def features(text):
         f.append("three-or-more-root-captures")
     if re.search(r"[\)\]][*+?]\s*@", text):
         f.append("quantified-root-pattern")
+    # the pattern of a stanza (text up to its `{`) is one parenthesised group that is itself quantified and contains an optional part
+    for m in re.finditer(r"(^|\n)\s*(\((?:[^{}\n]|\n(?!\s*\{))*\))\s*([?*+]+)\s*(@[\w-]+\s*)*\{", text):
+        if re.search(r"[?*]", m.group(2)) or len(m.group(3)) > 1:
+            f.append("nullable-repeated-root")
+            break
+    if re.search(r"@[\w-]+\s*[?*+](\s|\))", text):
+        f.append("quantifier-after-capture")
     return ",".join(f)
 
 
@@ -239,6 +278,8 @@ def run(tier):
         texts.append((t, r.choice([2, 10, 12, 13, 18])))
         for m in mutations(t, r, len(t) < 60 and tier == "thorough"):
             texts.append((m, r.choice([2, 10, 12, 13, 18])))
+    for t in HOSTILE_FIXED:
+        texts.append((t, 14))
     for t, s in base_texts:
         for m in mutations(t, r, tier == "thorough" and len(t) < 300):
             texts.append((m, s))
